@@ -23,7 +23,10 @@ def known_c02():
 
 def match_known(known, cls, detail):
     for k in known:
-        if k["class"] in cls and (not k.get("detail") or k["detail"] in detail):
+        subs = list(k.get("details") or [])
+        if k.get("detail"):
+            subs.append(k["detail"])
+        if k["class"] in cls and all(x in detail for x in subs):
             return k
     return None
 
@@ -129,6 +132,10 @@ def main(args, cfg):
 
     if args.replay:
         rf = json.load(open(args.replay))
+        if rf.get("config_text"):
+            os.makedirs(os.path.join(work, "configs"), exist_ok=True)
+            rf["job"]["config_file"] = os.path.join(work, "configs", "replay.yaml")
+            open(rf["job"]["config_file"], "w").write(rf["config_text"])
         r = rerun_single(binp, rf["job"], rf["tape"], work, "replay")
         f = fails(r)
         d = r["data"] or {}
@@ -139,8 +146,8 @@ def main(args, cfg):
         print("replay: verdict now %r" % f)
         return 0
 
-    ncases = 12 if tier == "quick" else 60
-    shards = 8 if tier == "quick" else 48
+    ncases = 30 if tier == "quick" else 80
+    shards = 12 if tier == "quick" else 64
     jobs = make_jobs(tier, seed, work, ncases, shards)
     with ThreadPoolExecutor(args.workers or 16) as ex:
         results = list(ex.map(lambda j: N.run_shard(binp, j, work, 900), jobs))
@@ -182,8 +189,9 @@ def main(args, cfg):
                 seen.add(ci)
                 tape = next((g["tape"] for g in gen if g["name"] == "g%d" % ci), None)
                 line = next((l for l in d["failed_lines"] if name in l), "")
-                defn = next((g.get("definition") or "" for g in gen if g["name"] == "g%d" % ci), "")
-                found.append((r["job"], ci, tape, "c02/fail", "%s ; definition: %s" % (line[:1500], defn[:1500])))
+                gi = next((g for g in gen if g["name"] == "g%d" % ci), {})
+                defn = gi.get("definition") or ""
+                found.append((r["job"], ci, tape, "c02/fail", "%s ; case: %s with %s request(s); definition: %s" % (line[:1500], gi.get("stream_type"), gi.get("requests"), defn[:1500])))
             if not seen:
                 found.append((r["job"], None, None, "c02/fail", "run %s failed: err=%r %s" % (r["job"]["name"], d["err"], " | ".join(d["failed_lines"][:2])[:1500])))
 
@@ -214,7 +222,7 @@ def main(args, cfg):
             gi = (dd.get("gen") or [{}])[0]
             detail = "minimised (%d -> %d tape entries): load=%s %s ; definition: %s" % (len(tape), len(small), gi.get("load"), " | ".join((dd.get("failed_lines") or [])[:1])[:1500], (gi.get("definition") or "")[:2500])
             tape = small
-        json.dump({"property": "C02", "class": cls, "detail": detail, "tape": tape, "job": job}, open(path, "w"), indent=1)
+        json.dump({"property": "C02", "class": cls, "detail": detail, "tape": tape, "job": job, "config_text": open(job["config_file"]).read()}, open(path, "w"), indent=1)
         lines += ["VIOLATION property=C02 replay=%s" % path, "  class: " + cls, "  detail: " + detail[:3500]]
         exit_code = 1
 
